@@ -25,7 +25,8 @@ func init() {
 			"(E5) a header is only accepted through the required-features gate; a block of unexpected type yields an error that travels in that iteration's pair; " +
 			"(E6) every slice/string index or slice expression reachable from the decoding goroutines has a proof from the idiom list (constant, range/loop counter, dominating bounds guard with error exit, counter into a buffer sized by Iterator.Count of the iterator being read), optional message fields are nil-guarded or `required`; " +
 			"(E7) no panic call and no unchecked type assertion is reachable from the goroutine roles; " +
-			"(E8) Err maps only io.EOF to nil. " +
+			"(E8) Err maps only io.EOF to nil; " +
+			"(E9) the cached block's string table and parameters are reset before every block, so the range checks of string references run against the block being decoded and a block without a string table is rejected instead of borrowing the previous block's strings. " +
 			"NOT decided: that the delivered prefix is correct (C01/C02), behaviour inside protoscan/protobuf/zlib (including whether a decoding library could itself return io.EOF), hangs inside libraries, memory exhaustion from huge declared sizes, column-length mismatches that neither index out of range nor exhaust an iterator.",
 		Assumptions: []string{"go/types, go/cfg (x/tools v0.29.0)",
 			"protoscan.Iterator.Count(WireTypeVarint) >= number of successful varint reads of that iterator; an exhausted iterator returns an error (read in protoscan v0.2.1 iterator.go/scalar.go)",
@@ -43,6 +44,7 @@ func init() {
 			{ID: "E6", Floor: 20, Doc: "index safety in everything reachable from the decoder goroutines", Run: c06E6},
 			{ID: "E7", Floor: 15, Doc: "no panic / unchecked type assertion reachable from the goroutine roles", Run: c06E7},
 			{ID: "E8", Floor: 2, Doc: "Err maps only io.EOF to nil", Run: c06E8},
+			{ID: "E9", Floor: 6, Doc: "string references are checked against the current block's string table: cached block parameters are reset before each block (shared with C01.R3)", Run: c01R3},
 		},
 		Mutants: []core.Mutant{
 			{Name: "drop-iterator-error", File: "osmpbf/decode_data.go", Find: "\t\t\tdec.lats, err = msg.Iterator(dec.lats)\n\t\t\tfoundLats = true", Replace: "\t\t\tdec.lats, _ = msg.Iterator(dec.lats)\n\t\t\tfoundLats = true", ExpectRule: "E1", ExpectConstruct: "scanDenseNodes"},
@@ -63,6 +65,7 @@ func init() {
 			{Name: "tags-sized-by-other-iterator", File: "osmpbf/decode_data.go", Find: "tags := make(osm.Tags, keys.Count(protoscan.WireTypeVarint))", Replace: "tags := make(osm.Tags, vals.Count(protoscan.WireTypeVarint))", ExpectRule: "E6", ExpectConstruct: "tags[index]"},
 			{Name: "bbox-deref-without-required", File: "osmpbf/decode.go", Find: "if headerBlock.OsmosisReplicationTimestamp != nil {\n\t\theader.ReplicationTimestamp", Replace: "if headerBlock.OsmosisReplicationSequenceNumber != nil {\n\t\theader.ReplicationTimestamp", ExpectRule: "E6", ExpectConstruct: "OsmosisReplicationTimestamp"},
 			{Name: "panic-on-plain-nodes", File: "osmpbf/decode_data.go", Find: "return errors.New(\"osmpbf: plain (non-dense) node groups are not supported\")", Replace: "panic(\"nodes are not supported, currently untested\")", ExpectRule: "E7", ExpectConstruct: "scanPrimitiveGroup"},
+			{Name: "stale-string-table", File: "osmpbf/decode_data.go", Find: "\t\tdec.primitiveBlock.Stringtable.S = dec.primitiveBlock.Stringtable.S[:0]\n", Replace: "", ExpectRule: "E9", ExpectConstruct: "reset@"},
 			{Name: "err-swallows-unexpected-eof", File: "osmpbf/scanner.go", Find: "if s.err == io.EOF {\n\t\treturn nil\n\t}", Replace: "if s.err == io.EOF || s.err == io.ErrUnexpectedEOF {\n\t\treturn nil\n\t}", ExpectRule: "E8", ExpectConstruct: "osmpbf"},
 		},
 	})
